@@ -587,10 +587,126 @@ impl Space for TargetSpace {
     }
 }
 
+
+// ---------------------------------------------------------------------------------------------
+// (f) two saves that overlap in time, to DIFFERENT destinations in the same directory (same stem, other extension)
+//
+// Save A is suspended at a hook point of the package writer (entered after A has created its temporary file, left
+// before A writes to it); save B runs to completion right there, on the same thread; then A continues. Every save that
+// reports success must have left its complete new file, every other destination its old content - whatever the other
+// save did in between.
+
+const OV_A: [Wl; 4] = [Wl::Xlsx, Wl::Light, Wl::Pw, Wl::PwLight];
+const OV_B: [(Wl, &str); 3] = [(Wl::CsvSmall, "csv"), (Wl::Light, "xlsm"), (Wl::Xlsx, "tmp")];
+const OV_SITES: [(u32, &str); 2] = [(6, "A-has-created-its-temp-file"), (7, "A-is-about-to-write")];
+
+struct OvCtx {
+    site: u32,
+    fired: bool,
+    wl_b: Wl,
+    dest_b: PathBuf,
+    src: PathBuf,
+    res_b: Option<Res>,
+}
+static OV_FX: std::sync::OnceLock<Fx> = std::sync::OnceLock::new();
+static OV: std::sync::Mutex<Option<OvCtx>> = std::sync::Mutex::new(None);
+fn ov_hook(site: u32) {
+    // take what is needed and release the lock: save B passes the same hook points itself
+    let job = {
+        let mut g = OV.lock().unwrap();
+        match g.as_mut() {
+            Some(c) if c.site == site && !c.fired => {
+                c.fired = true;
+                Some((c.wl_b, c.dest_b.clone(), c.src.clone()))
+            }
+            _ => None,
+        }
+    };
+    if let Some((wl_b, dest_b, src)) = job {
+        let fx = OV_FX.get().expect("fixture");
+        let r = run_guarded(|| fx.do_save(wl_b, &dest_b, &src));
+        if let Some(c) = OV.lock().unwrap().as_mut() {
+            c.res_b = Some(r);
+        }
+    }
+}
+
+struct OverlapSpace;
+impl OverlapSpace {
+    fn locate(i: u64) -> (Wl, (u32, &'static str), (Wl, &'static str), Pre) {
+        let pre = if i % 2 == 0 { Pre::Old } else { Pre::Absent };
+        let mut r = i / 2;
+        let b = OV_B[(r % OV_B.len() as u64) as usize];
+        r /= OV_B.len() as u64;
+        let site = OV_SITES[(r % OV_SITES.len() as u64) as usize];
+        r /= OV_SITES.len() as u64;
+        (OV_A[r as usize], site, b, pre)
+    }
+}
+impl Space for OverlapSpace {
+    fn len(&self) -> u64 {
+        (OV_A.len() * OV_SITES.len() * OV_B.len() * 2) as u64
+    }
+    fn describe(&self, i: u64) -> Value {
+        let (a, site, (b, ext_b), pre) = Self::locate(i);
+        json!({"injector":"overlap","save_A": a.name(), "A_destination": format!("book.{}", a.ext()), "suspended_at": site.1, "save_B": b.name(), "B_destination": format!("book.{}", ext_b), "destinations_before": pre.name()})
+    }
+    fn tags(&self, i: u64) -> Vec<String> {
+        let (a, site, (b, ext_b), pre) = Self::locate(i);
+        vec![format!("{}/overlap/{}", a.name(), site.1), format!("wl:{}", a.name()), "inj:overlap".into(), format!("other:{}->.{}", b.name(), ext_b), format!("dest:{}", pre.name())]
+    }
+    fn run(&self, i: u64, sink: &mut Sink) {
+        let (a, site, (b, ext_b), pre) = Self::locate(i);
+        let fx = OV_FX.get_or_init(Fx::new);
+        let tags = self.tags(i);
+        let case = self.describe(i);
+        sink.evaluations += 1;
+        let cd = CaseDir::create("ov");
+        let dest_a = cd.dest(a);
+        let dest_b = cd.d.join(format!("book.{}", ext_b));
+        let before = if pre == Pre::Old { Before::Old } else { Before::Absent };
+        if pre == Pre::Old {
+            std::fs::write(&dest_a, fx.old_bytes(a)).unwrap();
+            std::fs::write(&dest_b, fx.old_bytes(b)).unwrap();
+        }
+        let src = cd.src();
+        *OV.lock().unwrap() = Some(OvCtx { site: site.0, fired: false, wl_b: b, dest_b: dest_b.clone(), src: src.clone(), res_b: None });
+        umya_spreadsheet::verif_hook::install(ov_hook);
+        let res_a = run_guarded(|| fx.do_save(a, &dest_a, &src));
+        umya_spreadsheet::verif_hook::uninstall();
+        let ctx = OV.lock().unwrap().take().unwrap();
+        let (da, db) = (read_dest(&dest_a), read_dest(&dest_b));
+        let ls = listing(&cd.d);
+        cd.remove();
+        let res_b = match ctx.res_b {
+            Some(r) => r,
+            None => {
+                push(sink, Finding { clause: "harness", symptom: "fault-did-not-bind".into(), detail: format!("save A never reached the hook point {}", site.1) }, &tags, &case);
+                return;
+            }
+        };
+        let (ca, fa) = judge(fx, a, before, &res_a, &da, false);
+        let (cb, fb) = judge(fx, b, before, &res_b, &db, false);
+        sink.obs(&format!("overlap|{}|{}|{}|{}|{}|{}|{}|{:?}", a.name(), site.1, b.name(), res_a.kind(), ca, res_b.kind(), cb, ls));
+        sink.count(&format!("overlap:A:{}:{}", res_a.kind(), ca), 1);
+        sink.count(&format!("overlap:B:{}:{}", res_b.kind(), cb), 1);
+        for (who, fs) in [("A", fa), ("B", fb)] {
+            for mut f in fs {
+                f.detail = format!("save {} of two overlapping saves (A = {} -> book.{}, suspended at {}; B = {} -> book.{} run to completion there): {}; A returned {}, B returned {}; directory afterwards {:?}", who, a.name(), a.ext(), site.1, b.name(), ext_b, f.detail, res_a.text(), res_b.text(), ls);
+                f.symptom = format!("overlap-{}:{}", who, f.symptom);
+                push(sink, f, &tags, &case);
+            }
+        }
+    }
+}
+
 // ---------------------------------------------------------------------------------------------
 pub fn space(tier: Tier, id: &str) -> Option<Box<dyn Space>> {
     if let Some(rest) = id.strip_prefix("child:") {
         return st::child_space(rest);
+    }
+    if id == "overlap" {
+        return Some(Box::new(OverlapSpace));
     }
     let fx = Fx::new();
     let p = get_plan(tier, &fx);
@@ -624,7 +740,7 @@ fn run(ctx: &Ctx) -> i32 {
         return 2;
     }
     let thorough = ctx.tier == Tier::Thorough;
-    let ids = ["sink", "rlimit", "targets", "strace-err", "strace-kill"];
+    let ids = ["sink", "rlimit", "targets", "overlap", "strace-err", "strace-kill"];
     let mut spaces: Vec<(&'static str, Box<dyn Space>)> = vec![];
     for id in ids {
         let sp = space(ctx.tier, id).unwrap();
@@ -660,7 +776,7 @@ fn run(ctx: &Ctx) -> i32 {
             spaces,
             cfg: PoolCfg { chunk: 8, case_timeout: Duration::from_secs(120), ..Default::default() },
             level: "fault_enumeration",
-            rule: "five injectors, each enumerated completely over its index: (sink) every write-call index 0..=N of a fault-free run (N measured per API and per accepted-bytes-per-call) x 4 failure modes; (rlimit) path save in a forked child under RLIMIT_FSIZE=L with SIGXFSZ ignored for every L in 0..=size (small workloads; big ones: see bounds) x destination absent/old; (targets) 10 target scenarios x 8 workloads x destination absent/old; (strace-err) errno injected at the k-th call of every openat(create)/write/pwrite64/rename/close/fsync/ftruncate of the save window of a traced child (window = between two marker openat calls, ordinals taken from a fault-free census run), plus pairs (write k fails AND every unlink fails); (strace-kill) SIGKILL on entry of every system call of the window and of the end marker. Oracle: Err, or Ok with destination == complete new file; a pre-existing destination is byte-identical old or complete new; no panic. distinct_nontrivial = distinct (workload, fault, outcome kind, destination class, directory listing with sizes) observations among the cases whose fault actually fired".into(),
+            rule: "six injectors, each enumerated completely over its index: (overlap) two path saves to DIFFERENT destinations of the same directory and stem (book.xlsx with book.csv / book.xlsm / book.tmp): save A (4 package-writer APIs) is suspended at each of the 2 hook points it passes between creating its temporary file and writing to it, save B (3 workloads) runs to completion there, A continues; both results are judged by the statement's oracle, destinations absent/old; (sink) every write-call index 0..=N of a fault-free run (N measured per API and per accepted-bytes-per-call) x 4 failure modes; (rlimit) path save in a forked child under RLIMIT_FSIZE=L with SIGXFSZ ignored for every L in 0..=size (small workloads; big ones: see bounds) x destination absent/old; (targets) 10 target scenarios x 8 workloads x destination absent/old; (strace-err) errno injected at the k-th call of every openat(create)/write/pwrite64/rename/close/fsync/ftruncate of the save window of a traced child (window = between two marker openat calls, ordinals taken from a fault-free census run), plus pairs (write k fails AND every unlink fails); (strace-kill) SIGKILL on entry of every system call of the window and of the end marker. Oracle: Err, or Ok with destination == complete new file; a pre-existing destination is byte-identical old or complete new; no panic. distinct_nontrivial = distinct (workload, fault, outcome kind, destination class, directory listing with sizes) observations among the cases whose fault actually fired".into(),
             alphabets: json!({"workloads": WLS.iter().map(|w| w.name()).collect::<Vec<_>>(), "destination_before": ["absent", "old"], "sink_apis": SINK_APIS, "sink_modes": MODES.iter().map(|m| m.name()).collect::<Vec<_>>(), "sink_accepts_per_call": SINK_CHUNKS, "target_scenarios": SCENARIOS, "strace_errors": st::error_menu_json(), "fault_free_sizes": p.size, "sink_write_calls": p.sink_calls, "save_window_syscalls": windows}),
             bounds: json!({"rlimit": if thorough {format!("every L in 0..=size for xlsx-write, xlsx-write-light, xlsx-write-64k, csv-small, csv; every {}th L + boundaries for the three encrypted workloads", THOROUGH_CFB_STEP)} else {"every L in 0..=size for xlsx-write, xlsx-write-light, csv-small; boundary L (0,1,2,511..513,n*4096-1..+1,size-8192-1..+1,size-2..size+1) for xlsx-write-64k, csv and the three encrypted workloads".to_string()}, "strace": st::bounds_json(ctx.tier)}),
             exhaustive: caps.is_empty(),
